@@ -201,9 +201,16 @@ func (s *Sched) runThread(t *Thread, f func()) {
 		return
 	}
 	t.hash = mix(t.hash, 0x57a7) // started: distinct from "not yet scheduled"
+	returned := false
 	defer func() {
 		r := recover()
 		if r == nil {
+			if !returned && !s.aborting && !t.done {
+				// the thread left through runtime.Goexit (e.g. t.FailNow inside an action): it is
+				// finished like any other, the baton goes on
+				t.done = true
+				s.switchFrom(t)
+			}
 			return
 		}
 		if _, ok := r.(abortT); ok {
@@ -221,6 +228,7 @@ func (s *Sched) runThread(t *Thread, f func()) {
 		s.finish()
 	}()
 	f()
+	returned = true
 	t.done = true
 	s.switchFrom(t)
 }
